@@ -405,6 +405,16 @@ def whole_absorptions(F, ck, trs):
             if f.raw.get('impl') == i['d'] and f.name in ('to_vec', 'to_bytes'):
                 encs.append(f)
     ck.floor('R04.6', 'hash-output encoders (GenericHashOut::to_vec / to_bytes)', len(encs), 4)
+    # the absorbing primitives themselves (observe_cap loops over the cap, observe_elements over the slice, ...)
+    prims = [f for f in F.fns.values() if f.crate == 'plonky2' and f.file.endswith('iop/challenger.rs') and f.name.startswith('observe_') and f.body is not None]
+    ck.floor('R04.6', 'absorbing primitives of Challenger / RecursiveChallenger', len(prims), 10)
+    for f in sorted(prims, key=lambda f: f.qual):
+        bad = _partial_in(f.body)
+        for x in walk(f.body):
+            if x.get('k') == 'For':
+                bad += ob.is_partial_iter(x['it'])
+        ck.ob('R04.6', 'primitive:%s' % f.qual, not bad, 'absorbs every element it is given' if not bad else
+              'TRUNCATED ABSORPTION: %s uses %s: part of what callers hand to the transcript is not absorbed' % (f.qual, ','.join(sorted(set(bad)))), '%s:%d' % (f.file, f.line))
     for f in sorted(encs, key=lambda f: f.qual):
         bad = _partial_in(f.body, only_root='self') if f.body is not None else []
         ck.ob('R04.6', 'encoder:%s' % f.qual, not bad, 'encodes the whole digest' if not bad else
